@@ -13,15 +13,16 @@ WORKERS = 4
 
 
 def enumerate_cases(ctx, engine: str, module: str, *, constants=None, invariants=(), timeout: int = 1500,
-                    workers: int = WORKERS) -> list[dict]:
+                    workers: int = WORKERS, cases: str = "Cases", expected: str = "Expected",
+                    name: str | None = None) -> list[dict]:
     wd = ctx.wd.stage(engine)
     invs = "\n".join(f"Inv_{x} == {x}(c)" for x in invariants)
-    (wd / f"{module}_Enum.tla").write_text(table.ENUM.format(m=module, cases="Cases", expected="Expected", invs=invs))
+    (wd / f"{module}_Enum.tla").write_text(table.ENUM.format(m=module, cases=cases, expected=expected, invs=invs))
     sany(wd, f"{module}_Enum")
     cfg = render_cfg(init_next=("EnumInit", "EnumNext"), constants=constants,
                      invariants=[f"Inv_{x}" for x in invariants] + ["Emit"])
-    r = run_tlc(wd, f"{module}_Enum", cfg, timeout=timeout, cfg_name=f"{module}_enum.cfg", workers=workers)
-    ctx.add_tlc(f"{module}:enumerate", r)
+    r = run_tlc(wd, f"{module}_Enum", cfg, timeout=timeout, cfg_name=f"{module}_{name or 'enum'}.cfg", workers=workers)
+    ctx.add_tlc(f"{module}:{name or 'enumerate'}", r)
     require_ok(r, f"{module} table enumeration / table invariants {list(invariants)}")
     if len(r.json_lines) != r.distinct:
         raise MachineryError(f"{module}: {r.distinct} cases but {len(r.json_lines)} emitted")
